@@ -37,7 +37,35 @@ AdvOf(x) == IF x = "c" THEN AdvC ELSE AdvS
 
 \* header lists travel by catalogue name in steps; the model works on the token sequences
 ResolveCall(c) == IF "h" \in DOMAIN c THEN [c EXCEPT !.h = HL[@]] ELSE c
-ResolveFrame(f) == IF "h" \in DOMAIN f THEN [f EXCEPT !.h = HL[@]] ELSE f
+\* frames of the harness peer: its encoder uses the table size the model says a conforming peer uses
+ResolveFrame(f, ep) == IF "h" \in DOMAIN f THEN [f EXCEPT !.h = HL[@]] @@ [ets |-> ep.peerEnc] ELSE f
+
+\* ---------------------------------------------------------------- constructors for scenario alphabets
+AH(sid, h, es)        == [t |-> "HEADERS", sid |-> sid, es |-> es, h |-> h, pr |-> <<>>, blk |-> "ok"]
+AHP(sid, h, es, pr)   == [t |-> "HEADERS", sid |-> sid, es |-> es, h |-> h, pr |-> pr, blk |-> "ok"]
+AHB(sid, h, es, blk)  == [t |-> "HEADERS", sid |-> sid, es |-> es, h |-> h, pr |-> <<>>, blk |-> blk]
+AD(sid, n, es, pad)   == [t |-> "DATA", sid |-> sid, es |-> es, n |-> n, tag |-> "B", pad |-> pad]
+ARst(sid, code)       == [t |-> "RST", sid |-> sid, code |-> code]
+AWU(sid, inc)         == [t |-> "WU", sid |-> sid, inc |-> inc]
+ASet(pairs)           == [t |-> "SET", ack |-> FALSE, s |-> pairs]
+AAck                  == [t |-> "SET", ack |-> TRUE, s |-> <<>>]
+APing(tag, ack)       == [t |-> "PING", ack |-> ack, tag |-> tag]
+AGoAway(lsid, code)   == [t |-> "GOAWAY", last |-> lsid, code |-> code, tag |-> "-"]
+APrio(sid, w, dep, ex) == [t |-> "PRIO", sid |-> sid, w |-> w, dep |-> dep, excl |-> ex]
+AAlt(sid, org, fld)   == [t |-> "ALT", sid |-> sid, org |-> org, fld |-> fld]
+APP(sid, pid, h)      == [t |-> "PP", sid |-> sid, pid |-> pid, h |-> h, blk |-> "ok"]
+ACont(sid)            == [t |-> "CONT", sid |-> sid]
+AUnknown(sid)         == [t |-> "UNKNOWN", sid |-> sid]
+CInit(x)              == [a |-> "call", x |-> x, c |-> [op |-> "init"]]
+CCall(x, c)           == [a |-> "call", x |-> x, c |-> c]
+CRecv(x, fs)          == [a |-> "recv", x |-> x, fs |-> fs]
+CDlv(x, k)            == [a |-> "dlv", x |-> x, k |-> k]
+CHdr(sid, h, es)      == [op |-> "hdr", sid |-> sid, h |-> h, es |-> es, pr |-> <<>>]
+CData(sid, n, es)     == [op |-> "data", sid |-> sid, n |-> n, tag |-> "A", es |-> es, pad |-> -1]
+Singles(S)            == {<<f>> : f \in S}
+\* the usual preamble of a single endpoint: initiate, peer SETTINGS (pairs), peer's ACK of ours
+Handshake(x, pairs)   == <<CInit(x), CRecv(x, <<ASet(pairs)>>), CRecv(x, <<AAck>>)>>
+PairHandshake         == <<CInit("c"), CInit("s"), CDlv("s", 1), CDlv("c", 2), CDlv("s", 1)>>
 
 St0 == [eps |-> [x \in Roles |-> InitEp(x, IF x = "c" THEN CfgC ELSE CfgS, MaxClosed)],
         chan |-> [x \in Roles |-> <<>>]]
@@ -62,7 +90,7 @@ Do(S, s) ==
                 fl == Flush(S, x, r.ep, NoFlush(s))
             IN [S |-> fl.S, last |-> s @@ [p |-> Pred(r.r, fl.o, <<>>, r.ep), dev |-> r.ep.dev]]
        [] s.a = "recv" ->
-            LET r == Receive(ep, [i \in 1..Len(s.fs) |-> ResolveFrame(s.fs[i])])
+            LET r == Receive(ep, [i \in 1..Len(s.fs) |-> ResolveFrame(s.fs[i], ep)])
                 fl == Flush(S, x, r.ep, NoFlush(s))
             IN [S |-> fl.S, last |-> s @@ [p |-> Pred(r.r, fl.o, r.ev, r.ep), dev |-> r.ep.dev]]
        [] s.a = "dlv" ->
